@@ -368,3 +368,79 @@ func TestQueryDisk(t *testing.T) {
 		disk = nil
 	}
 }
+
+// TestBigStore: limits beyond any internal buffer size. 1300 tiny messages on one channel (inside the reply cap),
+// limits around 1024 and above; continuation from the oldest id until exhaustion with limit 500.
+func TestBigStore(t *testing.T) {
+	for _, d := range []bool{false, true} {
+		s, err := store(d)
+		if err != nil {
+			t.Fatal(err)
+		}
+		caseNo++
+		contract := 0x20000000 + caseNo*8
+		const total = 1300
+		base := time.Now().Unix() - 1000
+		var ids []message.ID
+		for i := 0; i < total; i++ {
+			m := message.New(ssid(contract, []string{"a"}), []byte("a/"), []byte{byte(i)})
+			m.ID.SetTime(base + int64(i/400))
+			m.TTL = 100000
+			ids = append(ids, append(message.ID(nil), m.ID...))
+			if err := s.Store(m); err != nil {
+				t.Fatal(err)
+			}
+		}
+		for _, limit := range []int{1000, 1023, 1024, 1025, 1200, 1300, 5000} {
+			got, err := s.Query(ssid(contract, []string{"a"}), time.Unix(0, 0), time.Unix(0, 0), nil, limit)
+			want := limit
+			if want > total {
+				want = total
+			}
+			c := map[string]interface{}{"disk": d, "stored": total, "limit": limit}
+			ok := err == nil && len(got) == want
+			seen := map[string]bool{}
+			for _, m := range got {
+				seen[string(m.ID)] = true
+			}
+			for i := total - want; i < total && ok; i++ {
+				ok = seen[string(ids[i])]
+			}
+			if !ok {
+				vkit.ReportFailure(t.Name(), c, fmt.Sprintf("query with limit %d on %d stored matching messages returned %d (err %v), expected the newest %d", limit, total, len(got), err, want), "")
+				t.Fatalf("limit %d got %d", limit, len(got))
+			}
+			vkit.Record(t.Name(), c, vkit.OK(true, "big-store"))
+		}
+		// paging with limit 500: 500 + 500 + 300 + 0, disjoint, covering everything
+		seen := map[string]bool{}
+		var from message.ID
+		for page := 0; page < 5; page++ {
+			got, _ := s.Query(ssid(contract, []string{"a"}), time.Unix(0, 0), time.Unix(0, 0), from, 500)
+			if len(got) == 0 {
+				break
+			}
+			oldest := got[0].ID
+			for _, m := range got {
+				if seen[string(m.ID)] {
+					vkit.ReportFailure(t.Name(), map[string]interface{}{"disk": d, "page": page}, "a message is returned on two continuation pages", "")
+					t.Fatal("duplicate across pages")
+				}
+				seen[string(m.ID)] = true
+				if bytes.Compare(m.ID, oldest) > 0 {
+					oldest = m.ID
+				}
+			}
+			from = oldest
+		}
+		if len(seen) != total {
+			vkit.ReportFailure(t.Name(), map[string]interface{}{"disk": d}, fmt.Sprintf("paging with limit 500 covered %d of %d stored messages", len(seen), total), "")
+			t.Fatalf("paging covered %d", len(seen))
+		}
+		vkit.Record(t.Name(), map[string]interface{}{"disk": d, "paging": 500}, vkit.OK(true, "big-store-paging"))
+	}
+	if disk != nil {
+		disk.Close()
+		disk = nil
+	}
+}
